@@ -16,7 +16,8 @@ type Explorer struct {
 	MaxExec  int64         // execution cap (0 = none)
 	OnResult func(r *Result, choices []int) bool // oracle; return false to stop the search
 
-	Stats   Stats
+	Stats    Stats
+	Leftover [][]int // unexplored prefixes when MaxExec stopped the search
 	visited map[[2]uint64]int8
 	stop    bool
 }
@@ -68,10 +69,13 @@ func (r *replay) Cut(s *Sched, idx int) bool {
 	rem := int8(e.Bound - r.used)
 	if v, ok := e.visited[k]; ok {
 		if v >= rem {
-			return true
+			return e.Prune
 		}
 	} else {
 		e.Stats.States++
+		if !e.Prune && len(e.visited) >= 4<<20 {
+			return false // counting only: stop growing the table
+		}
 	}
 	e.visited[k] = rem
 	return false
@@ -88,6 +92,14 @@ func (e *Explorer) RunOne(prefix []int) (*Result, []int) {
 	return res, ch
 }
 
+// SwapVisited replaces the visited table (nil disables state tracking for the
+// next executions) and returns the previous one.
+func (e *Explorer) SwapVisited(v map[[2]uint64]int8) map[[2]uint64]int8 {
+	old := e.visited
+	e.visited = v
+	return old
+}
+
 type frame struct {
 	prefix []int
 }
@@ -97,7 +109,7 @@ func (e *Explorer) Explore(root []int) {
 	if e.Stats.Ends == nil {
 		e.Stats.Ends = map[string]int64{}
 	}
-	if e.Prune && e.visited == nil {
+	if e.visited == nil {
 		e.visited = map[[2]uint64]int8{}
 	}
 	stack := []frame{{prefix: root}}
@@ -164,7 +176,14 @@ func (e *Explorer) Explore(root []int) {
 		}
 	}
 	e.Stats.Frontier = int64(len(stack))
+	e.Leftover = nil
 	if e.stop {
 		e.Stats.Frontier = 0
+	} else if e.Stats.Capped && e.Stats.CapReason == "max-executions" {
+		// hand the unexplored frontier back (work splitting): not a cap of the search
+		for _, f := range stack {
+			e.Leftover = append(e.Leftover, f.prefix)
+		}
+		e.Stats.Capped, e.Stats.CapReason, e.Stats.Frontier = false, "", 0
 	}
 }
